@@ -16,7 +16,9 @@ use vkit::{
     source::{Frag, ScriptReader},
 };
 
-const POLYS: [u64; 3] = [0x003D_A335_8B4D_C173, 0x0025_0e86_8d5e_a8d9, 0x003e_d61b_8db8_e8ab];
+/// three polynomials of degree 53 (what `init` generates) and one of degree 55 (a configuration made
+/// elsewhere; the fingerprint arithmetic is defined for every degree below 57)
+const POLYS: [u64; 4] = [0x003D_A335_8B4D_C173, 0x0025_0e86_8d5e_a8d9, 0x003e_d61b_8db8_e8ab, 0x00ae_2120_8265_71df];
 
 #[derive(Clone, Debug, PartialEq, Eq, Hash)]
 pub struct Params {
